@@ -1,5 +1,6 @@
 import RimuProofs.Lemmas.Eqns
 import RimuProofs.Regex.Analysis
+import RimuProofs.Lemmas.Groups
 import RimuModel.Inline
 
 /-!
@@ -74,5 +75,52 @@ theorem repl_templates_groups_exist :
         match m.res.group m.inp 2 with
         | some [c] => decide (c.toNat - 48 ≤ d.pat.ngroups)
         | _ => false) = true := by decide +kernel
+
+
+/-! ## A5: groups that the code reads as strings take part in every match
+
+For every place where the Python code uses `match[i]` as a string (model: `Match.str i`), the regenerated pattern sets
+group `i` in every match (`Rx.setsGroup`, sound for every input by `Rx.Matches.setsGroup`). -/
+
+/-- call sites on fixed patterns, with the groups they read -/
+def strSites : List (Pat × List Nat) :=
+  [(P.blockattributes_injectHtmlAttributes_0, [1, 2]),      -- class injection: match[1], match[2]
+   (P.blockattributes_injectHtmlAttributes_2, [1, 2]),      -- style injection
+   (P.delimitedblocks_macroDefContentFilter_0, [1]),        -- macro name of a multi-line definition
+   (P.macros_render_0, [1, 2]), (P.macros_render_1, [1, 2]),  -- macro invocation: name, parameters
+   (P.macros_render_2, [1, 2]),                              -- formal parameter: $ / $$, number
+   (P.utils_replaceMatch_0, [1, 2])]                         -- template group: $ / $$, number
+
+theorem strSites_set : strSites.all (fun ps => ps.2.all ps.1.Sets) = true := by decide +kernel
+
+/-- groups read by each line-block filter -/
+def lineFilterGroups : LineFilter → List Nat
+  | .blockDef => [1, 2] | .quoteDef => [1, 2, 3, 4] | .replDef => [1, 2, 3] | .macroDef => [1, 2]
+  | .header => [1, 2] | .apiOption => [1, 2] | _ => []
+
+theorem lineDefs_set : lineDefs.all (fun d => (lineFilterGroups d.filter).all d.pat.Sets) = true := by decide +kernel
+
+/-- groups of the opening pattern read by a delimited block's delimiter filter and verifier -/
+def blockOpenGroups (d : BlockDef) : List Nat :=
+  (match d.delimiterFilter with | .opening => [1] | .classInjection => [1, 2] | .none => []) ++
+  (match d.verify with | .code => [1, 2] | _ => [])
+
+theorem blockDefs_set :
+    blockDefaultDefs.all (fun d => (blockOpenGroups d).all d.openMatch.Sets &&
+      (decide (d.closeMatch.ngroups = 0) || d.closeMatch.Sets 1)) = true := by decide +kernel
+
+/-- the term of a definition-list item -/
+theorem listDefs_set : listDefs.all (fun d => d.termOpenTag == [] || d.pat.Sets 1) = true := by decide +kernel
+
+/-- the filters of the default replacement definitions read group 1 -/
+theorem replDefaults_set :
+    replDefaultDefs.all (fun d => (d.filter != .html && d.filter != .entity) || d.pat.Sets 1) = true := by decide +kernel
+
+/-- the quote pattern, for every quote table: groups 1 (the delimiter) and 2 (the quoted text) -/
+theorem quotesRe_set (defs : List QuoteDef) : (quotesRe defs).Sets 1 = true ∧ (quotesRe defs).Sets 2 = true := by
+  constructor <;> simp [quotesRe, Pat.Sets, P.quotesReOf, P.quotesReGroups, Rx.setsGroup]
+
+/-- a delimited-block definition value: the close tag (group 2) is set whenever the open tag (group 1) is -/
+theorem blockdef_tags_together : Rx.coSets 1 2 P.delimitedblocks_setDefinition_0.re = true := by decide +kernel
 
 end Facts
